@@ -278,3 +278,54 @@ def public_reach(a0: bool, a1: bool, wl: bool) -> bool:
             fb = R.assert_less(proxied(VALS[ia]), 0, report=r)
             return not bool(fb)
     return True
+
+
+TYPE_VALUES = [1, 1.5, "a", True, [1], ["a"], (1, "a"), {"k": 1}, None, []]
+TYPE_SPECS = [int, float, str, bool, list, dict, tuple, list[int], list[str]]
+
+
+def _conforms(v, spec):
+    """Reference for the unambiguous cells; None = not settled (bool vs int, int vs float, empty list vs list[T])."""
+    if spec in (list[int], list[str]):
+        if not isinstance(v, list):
+            return False
+        if not v:
+            return None
+        want = int if spec == list[int] else str
+        return all(type(e) is want for e in v)
+    if isinstance(v, bool) and spec in (int, float):
+        return None
+    if type(v) is int and spec is float:
+        return None
+    return type(v) is spec
+
+
+def type_menu(v0: bool, v1: bool, v2: bool, v3: bool, s0: bool, s1: bool, s2: bool, s3: bool) -> bool:
+    """
+    assert_type / assert_not_type on a 10-value x 9-type menu: silent exactly when the value is of the asserted type (cells
+    the documentation leaves open - bool as int, int as float, [] as list[T] - are skipped); the two never agree.
+
+    pre: True
+    post: _
+    """
+    tick()
+    vi, si = bits(v0, v1, v2, v3), bits(s0, s1, s2, s3)
+    if vi >= len(TYPE_VALUES) or si >= len(TYPE_SPECS):
+        return True
+    with NoTracing():       # menu values are concrete; evaluate() builds result proxies, which defeat tracing
+        return _type_cell(TYPE_VALUES[vi], TYPE_SPECS[si])
+
+
+def _type_cell(v, spec):
+    clear_report()
+    contextualize_report("pass")        # type names given as strings are evaluated in MAIN_REPORT's sandbox
+    sandbox_run()
+    try:
+        p = R.assert_type(v, spec)
+        n = R.assert_not_type(v, spec)
+        want = _conforms(v, spec)
+        if bool(p) == bool(n):
+            return False
+        return want is None or bool(p) == (not want)
+    finally:
+        clear_report()
